@@ -105,6 +105,7 @@ func stringSwitch(fn *ssa.Function, tag func(ssa.Value) bool, pkgSuffix ...strin
 		return ai
 	}
 	chain := map[*ssa.BasicBlock]bool{}
+	neEdge := map[*ssa.BasicBlock]int{}
 	var last *ssa.BasicBlock
 	for _, b := range fn.Blocks {
 		iff, ok := b.Instrs[len(b.Instrs)-1].(*ssa.If)
@@ -112,23 +113,29 @@ func stringSwitch(fn *ssa.Function, tag func(ssa.Value) bool, pkgSuffix ...strin
 			continue
 		}
 		bo, ok := iff.Cond.(*ssa.BinOp)
-		if !ok || bo.Op != token.EQL || !tag(bo.X) {
+		if !ok || (bo.Op != token.EQL && bo.Op != token.NEQ) || !tag(bo.X) {
 			continue
 		}
 		k, ok := bo.Y.(*ssa.Const)
 		if !ok || k.Value == nil || k.Value.Kind() != constant.String {
 			continue
 		}
+		// the edge on which the tag equals the constant: true edge of `==`, false edge of `!=`
+		eq := 0
+		if bo.Op == token.NEQ {
+			eq = 1
+		}
 		chain[b] = true
+		neEdge[b] = 1 - eq
 		last = b
-		// the arm: true successor; with `case A, B:` several tests jump to one body block
-		out[constant.StringVal(k.Value)] = collect(b.Succs[0])
+		// the arm: the equal successor; with `case A, B:` several tests jump to one body block
+		out[constant.StringVal(k.Value)] = collect(b.Succs[eq])
 	}
 	if last != nil {
-		// default: follow false edges from the first test until leaving the chain
+		// default: follow the not-equal edges from the first test until leaving the chain
 		for _, b := range fn.Blocks {
-			if chain[b] && !chain[b.Succs[1]] {
-				out["default"] = collect(b.Succs[1])
+			if chain[b] && !chain[b.Succs[neEdge[b]]] {
+				out["default"] = collect(b.Succs[neEdge[b]])
 			}
 		}
 	}
